@@ -62,7 +62,8 @@ def harnesses(tier):
                     hs.append({"id": "edit/add_edge/b1/l%d" % l1, "params": {"kind": "edit", "op": op, "hasb": 1, "l1": l1,
                                                                             "t2": tier == "thorough"}, "timeout": 1200, "twin": l1 == 0})
             else:
-                hs.append({"id": "edit/%s/b%d" % (op, hasb), "params": {"kind": "edit", "op": op, "hasb": hasb}, "timeout": 900})
+                hs.append({"id": "edit/%s/b%d" % (op, hasb), "params": {"kind": "edit", "op": op, "hasb": hasb, "sym": True,
+                                                                       "t2": tier == "thorough"}, "timeout": 900})
     hs.append({"id": "history/remove-readd", "params": {"kind": "history"}, "timeout": 300})
     if tier == "thorough":
         for p0 in range(4):
@@ -317,8 +318,10 @@ def build(params):
                "0 <= x <= %d and 0 <= y <= %d and 0 <= dx <= 1 and 0 <= dy <= 1 and 0 <= tg <= 1" % (len(nodes) - 1, len(nodes) - 1)]
         if "l1" in params:
             pre.append("l1 == %d and l2 >= l1" % params["l1"])
-            if not params.get("t2"):
-                pre.append("t2 == 0")
+        if params.get("sym"):
+            pre.append("l2 >= l1")
+        if ("l1" in params or params.get("sym")) and not params.get("t2"):
+            pre.append("t2 == 0")
         if op != "add_edge":
             pre.append("y == 0 and dx == 0 and dy == 0 and tg == 0")
         if op == "add_node":
